@@ -610,6 +610,27 @@ class OutputSchemaBuilder(
             Tuple[str, Tuple[str, ...], Optional[str]], graphql.GraphQLUnionType
         ] = {}
 
+    def visit(self, tp: AnyType) -> TypeFactory[graphql.GraphQLOutputType]:
+        # a type can also be recursive through its resolvers, which are not seen by
+        # the recursion check of serialization
+        cache_key = tp, self._conversion
+        if cache_key in self._cache:
+            return self._cache[cache_key]
+        if not isinstance(get_origin_or_type(tp), type) or not get_resolvers(tp):
+            return super().visit(tp)
+        result = None
+
+        def lazy_result():
+            assert result is not None
+            return result
+
+        self._cache[cache_key] = self._recursive_result(lazy_result)
+        try:
+            result = super(RecursiveConversionsVisitor, self).visit(tp)
+        finally:
+            del self._cache[cache_key]
+        return result
+
     def _field_serialization_method(self, field: ObjectField) -> SerializationMethod:
         return partial_serialization_method_factory(
             self.aliaser, field.serialization, self.default_conversion
